@@ -3,6 +3,7 @@
 package websocket
 
 import (
+	"reflect"
 	"runtime"
 	"sync"
 )
@@ -102,6 +103,64 @@ func vhook(ev int, c *Conn, m *mu, a, b int) {
 	tr.mu.Lock()
 	tr.evs = append(tr.evs, VerifEvent{G: g, Ev: ev, Mu: kind, A: a, B: b})
 	tr.mu.Unlock()
+}
+
+// Pool trace (global): which pooled object was taken, returned or used, by which goroutine.
+const (
+	VerifPoolGet = 1
+	VerifPoolPut = 2
+	VerifPoolUse = 3 // a Read went through this object
+)
+
+const (
+	VerifKindFlateReader = 1
+	VerifKindBufioReader = 2
+	VerifKindFlateWriter = 3
+	VerifKindBufioWriter = 4
+)
+
+// VerifPoolEvent is one pool event; Obj identifies the object (its address).
+type VerifPoolEvent struct {
+	G    int64
+	Ev   int
+	Kind int
+	Obj  uintptr
+}
+
+var (
+	verifPoolMu    sync.Mutex
+	verifPoolOn    bool
+	verifPoolTrace []VerifPoolEvent
+)
+
+// VerifPoolTraceOn starts (and clears) the global pool trace.
+func VerifPoolTraceOn() {
+	verifPoolMu.Lock()
+	verifPoolOn = true
+	verifPoolTrace = nil
+	verifPoolMu.Unlock()
+}
+
+// VerifPoolTraceGet returns the pool events recorded so far.
+func VerifPoolTraceGet() []VerifPoolEvent {
+	verifPoolMu.Lock()
+	defer verifPoolMu.Unlock()
+	return append([]VerifPoolEvent(nil), verifPoolTrace...)
+}
+
+func vpool(ev, kind int, obj interface{}) {
+	verifPoolMu.Lock()
+	if verifPoolOn {
+		var p uintptr
+		if obj != nil {
+			v := reflect.ValueOf(obj)
+			if v.Kind() == reflect.Ptr {
+				p = v.Pointer()
+			}
+		}
+		verifPoolTrace = append(verifPoolTrace, VerifPoolEvent{G: VerifGoID(), Ev: ev, Kind: kind, Obj: p})
+	}
+	verifPoolMu.Unlock()
 }
 
 func b2i(b bool) int {
